@@ -31,6 +31,9 @@ def Vector_sort (truth : Term → Bool) : Out :=
 /-- the decorators of dataiter/vector.py: Vector.sort, outermost first -/
 def Vector_sort_decorators : List String := []
 
+/-- the signature of dataiter/vector.py: Vector.sort: parameters in order, with the source text of their defaults -/
+def Vector_sort_signature : List String := ["self", "*", "dir=1"]
+
 /-- dataiter/vector.py: Vector.rank (sha256 of the function source: a2dc17b194d3614a) -/
 def Vector_rank (truth : Term → Bool) : Out :=
   if truth (Term.app "Eq" [(Term.app ".length" [(Term.sym "self")]), (Term.int (0 : Int))]) then
@@ -91,6 +94,9 @@ def Vector_rank (truth : Term → Bool) : Out :=
 /-- the decorators of dataiter/vector.py: Vector.rank, outermost first -/
 def Vector_rank_decorators : List String := []
 
+/-- the signature of dataiter/vector.py: Vector.rank: parameters in order, with the source text of their defaults -/
+def Vector_rank_signature : List String := ["self", "*", "method='min'"]
+
 /-- dataiter/vector.py: Vector.unique (sha256 of the function source: b250584209c6db2d) -/
 def Vector_unique (truth : Term → Bool) : Out :=
   let opt' : Term := (Term.app "._optimize_for_argsort" [(Term.sym "self")]);
@@ -102,6 +108,9 @@ def Vector_unique (truth : Term → Bool) : Out :=
 /-- the decorators of dataiter/vector.py: Vector.unique, outermost first -/
 def Vector_unique_decorators : List String := []
 
+/-- the signature of dataiter/vector.py: Vector.unique: parameters in order, with the source text of their defaults -/
+def Vector_unique_signature : List String := ["self"]
+
 /-- dataiter/vector.py: Vector._optimize_for_argsort (sha256 of the function source: c40aed754af7a270) -/
 def Vector_optimize_for_argsort (truth : Term → Bool) : Out :=
   if (truth (Term.app ".is_string" [(Term.sym "self")]) && truth (Term.app "Gt" [(Term.app ".length" [(Term.sym "self")]), (Term.int (0 : Int))]) && truth (Term.app "Lt/Lt" [(Term.int (0 : Int)), (Term.app "walrus" [(Term.sym "n"), (Term.app ".max" [(Term.app ".str_len" [(Term.app ".str" [(Term.sym "self")])])])]), (Term.int (50 : Int))])) then
@@ -111,5 +120,8 @@ def Vector_optimize_for_argsort (truth : Term → Bool) : Out :=
 
 /-- the decorators of dataiter/vector.py: Vector._optimize_for_argsort, outermost first -/
 def Vector_optimize_for_argsort_decorators : List String := []
+
+/-- the signature of dataiter/vector.py: Vector._optimize_for_argsort: parameters in order, with the source text of their defaults -/
+def Vector_optimize_for_argsort_signature : List String := ["self"]
 
 end DI.Gen
